@@ -3,10 +3,10 @@
 TIER="${1:-quick}"; shift
 cd "$(dirname "$0")/.."
 IDS="$@"; [ -z "$IDS" ] && IDS=$(python3 -c "import json;print(' '.join(c['property_id'] for c in json.load(open('MANIFEST.json'))['checks']))")
-mkdir -p /tmp/verif-logs
+LOGS="${VERIF_LOGDIR:-/tmp/verif-logs}"; mkdir -p "$LOGS"
 for p in $IDS; do
   t0=$(date +%s)
-  ./bin/check $p --tier $TIER > /tmp/verif-logs/$p.$TIER.log 2>&1; rc=$?
+  ./bin/check $p --tier $TIER > $LOGS/$p.$TIER.log 2>&1; rc=$?
   t1=$(date +%s)
-  echo "$p rc=$rc wall=$((t1-t0))s $(grep -E "^$p $TIER" /tmp/verif-logs/$p.$TIER.log | cut -c1-220)"
+  echo "$p rc=$rc wall=$((t1-t0))s $(grep -E "^$p $TIER" $LOGS/$p.$TIER.log | cut -c1-220)"
 done
